@@ -205,6 +205,24 @@ def run(ctx):
             if targets != t_before or ignore != i_before:
                 viol.append({"what": "the caller's target_classes / namespaces_to_ignore list was modified", "before": [t_before, i_before],
                              "after": [list(targets), list(ignore)], "nt": nt_two})
+        # two Shapers over one graph with DIFFERENT namespaces_to_ignore, one after the other in this process: each must equal the run on the
+        # input without the predicates it ignores (that reference run has no filter at all)
+        stats["ignore_list_pairs"] = 0
+        NSA, NSB = "http://a.example.org/", "http://b.example.org/"
+        nt_ab = "".join("<http://example.org/n%d> <%s> <http://example.org/K> .\n<http://example.org/n%d> <%sname> \"x\" .\n<http://example.org/n%d> <%scode> \"y\" .\n"
+                        % (k, RDF_TYPE, k, NSA, k, NSB) for k in range(3))
+        def without(ns_):
+            return "".join(l_ + "\n" for l_ in nt_ab.strip().split("\n") if ("<" + ns_) not in l_.split(" ")[1])
+        for rep in range(2):
+            order = [NSA, NSB] if rep == 0 else [NSB, NSA]
+            for ns_ in order + order[:1]:
+                got = Shaper(raw_graph=nt_ab, input_format=C.NT, all_classes_mode=True, namespaces_to_ignore=[ns_]).shex_graph(string_output=True)
+                ref = Shaper(raw_graph=without(ns_), input_format=C.NT, all_classes_mode=True).shex_graph(string_output=True)
+                stats["ignore_list_pairs"] += 1
+                if got != ref:
+                    viol.append({"what": "a Shaper ignoring %s, run after Shapers with another namespaces_to_ignore in the same process, differs from the run on the "
+                                         "input without the ignored predicates" % ns_, "order": order, "got": got[-400:], "reference": ref[-400:], "nt": nt_ab})
+                    break
         # one rdflib Graph object handed to two Shapers with different namespaces_dict: the second must get what it gets on a graph of its own,
         # and the caller's graph (its namespace bindings, its triples) stays as it was
         import rdflib
